@@ -212,6 +212,12 @@ func (sb *schemaBuilder) buildUnionStruct(typ reflect.Type) error {
 		}
 
 		union.Types[obj.Name] = obj
+		if obj.Name != field.Name {
+			if union.GoFields == nil {
+				union.GoFields = make(map[string]string)
+			}
+			union.GoFields[obj.Name] = field.Name
+		}
 	}
 	return nil
 }
